@@ -212,7 +212,7 @@ def gen(tier, rng, shard, nshards):
         elif rng.random() < 0.3:
             yield {"mode": "expr", "expr": gen_pattern(rng, o), "pattern": True}
         else:
-            yield {"mode": "expr", "expr": gen_expr(rng, int(S.pick(rng, [1, 2, 2, 3, 3, 4, 5])), o)}
+            yield {"mode": "expr", "expr": widen_arrays(gen_expr(rng, int(S.pick(rng, [1, 2, 2, 3, 3, 4, 5])), o))}
 
 
 # ---- two evaluators -------------------------------------------------------------------------------
@@ -426,6 +426,33 @@ def site_of(x, ctx, oracle):
         kinds.append("array" if a["op"] in ("array", "densify") else "operator")
     preds["operands"] = "+".join(sorted(set(kinds)))
     return "expr:" + op, preds
+
+
+def _has_kind(x, kinds):
+    if isinstance(x, dict):
+        return x.get("k") in kinds or any(_has_kind(v, kinds) for v in x.values())
+    if isinstance(x, list):
+        return any(_has_kind(v, kinds) for v in x)
+    return False
+
+
+def widen_arrays(e):
+    """Identity / Permutation / FFT products keep the precision of a narrower *array* operand (recorded C01 finding, C01's
+    subject): an array multiplied with an expression containing one of them is given the widest dtype, so that the dtype
+    of the product is the same with or without that behaviour."""
+    if not isinstance(e, dict) or "args" not in e:
+        return e
+    e["args"] = [widen_arrays(a) for a in e["args"]]
+    if e["op"] == "matmul":
+        for i, a in enumerate(e["args"]):
+            other = e["args"][1 - i] if len(e["args"]) == 2 else None
+            if other is None or not _has_kind(other, ("FFT", "Identity", "Permutation")):
+                continue
+            if a.get("op") == "array":
+                a["dt"] = "c16"
+            elif a.get("op") == "densify":  # an array of the inner expression's dtype: keep it an operator instead
+                e["args"][i] = a["args"][0]
+    return e
 
 
 def brief(x, d=0):
